@@ -32,6 +32,9 @@ def regenerate(ctx):
     de = facts.get("deletesElsewhere", "99") if ok else "99"
     ea = "true" if facts.get("expiredAtomic") == "true" else "false"
     um = "true" if facts.get("unloadUnderLoadedMu") == "true" else "false"
+    eva = "true" if facts.get("evictAtomic") == "true" else "false"
+    enq = "true" if facts.get("enqueueNonBlocking") == "true" else "false"
+    wup = "true" if facts.get("waitUnloadPure") == "true" else "false"
     body = ("-- REGENERATED on every run by vlib/checks/sched_common.py (harness/cmd/schedfacts) from /repo's sched.go.\n"
             "import OllamaVerif.Model.Sched\n"
             "namespace OllamaVerif.Generated.C01\n"
@@ -43,10 +46,18 @@ def regenerate(ctx):
             f"def expiredAtomic : Bool := {ea}\n"
             "/-- unload() and the delete from `loaded` happen while loadedMu is held (the model's atomic `cExp` region) -/\n"
             f"def unloadUnderLoadedMu : Bool := {um}\n"
+            "/-- processPending marks its eviction victim (sessionDuration = 0) and tests whether it is idle in ONE critical\n"
+            "    section of the victim's refMu (the model's atomic `pExpire` region) -/\n"
+            f"def evictAtomic : Bool := {eva}\n"
+            "/-- GetRunner enqueues with a non-blocking send (`select … default: ErrMaxQueue`): the model's `submit` never blocks -/\n"
+            f"def enqueueNonBlocking : Bool := {enq}\n"
+            "/-- the `<-s.unloadedCh` arms of processPending only log and continue (`pDrainUnloaded` / `pWaitUnload` change nothing else) -/\n"
+            f"def waitUnloadPure : Bool := {wup}\n"
             "end OllamaVerif.Generated.C01\n")
     core.write_generated("OllamaVerif/Generated/C01_SchedFacts.lean", body)
     ctx.coverage["tree_variant"] = {"guardDelete": gd, "recheckGrant": rg, "expiredAtomic": ea,
-                                    "unloadUnderLoadedMu": um, "extractor_ok": ok}
+                                    "unloadUnderLoadedMu": um, "evictAtomic": eva, "enqueueNonBlocking": enq,
+                                    "waitUnloadPure": wup, "extractor_ok": ok}
     return "good" if (gd, rg) == ("true", "true") else "pinned" if (gd, rg) == ("false", "false") else None
 
 
